@@ -16,33 +16,39 @@ import (
 // function with a known name, so the rendered stack must name that function.
 
 //go:noinline
-func makeNew(msg string) *errs.Error { return errs.New(msg) }
+func makeNew(msg string) *errs.Error { mark(); return errs.New(msg) }
 
 //go:noinline
-func makeNewf(msg string) *errs.Error { return errs.Newf("%s", msg) }
+func makeNewf(msg string) *errs.Error { mark(); return errs.Newf("%s", msg) }
 
 //go:noinline
-func makeCause(msg string, c error) *errs.Error { return errs.NewWithCause(msg, c) }
+func makeCause(msg string, c error) *errs.Error { mark(); return errs.NewWithCause(msg, c) }
 
 //go:noinline
-func makeCausef(msg string, c error) *errs.Error { return errs.NewWithCausef(c, "%s", msg) }
+func makeCausef(msg string, c error) *errs.Error { mark(); return errs.NewWithCausef(c, "%s", msg) }
 
 //go:noinline
-func makeWrap(c error) error { return errs.Wrap(c) }
+func makeWrap(c error) error { mark(); return errs.Wrap(c) }
 
 //go:noinline
-func makeWrapTyped(c error) *errs.Error { return errs.WrapTyped(c) }
+func makeWrapTyped(c error) *errs.Error { mark(); return errs.WrapTyped(c) }
 
 //go:noinline
-func makeAppend(acc error, rest ...error) *errs.Error { return errs.Append(acc, rest...) }
+func makeAppend(acc error, rest ...error) *errs.Error { mark(); return errs.Append(acc, rest...) }
 
 //go:noinline
-func makeInner(msg string) *errs.Error { return errs.New(msg) }
+func makeInner(msg string) *errs.Error { mark(); return errs.New(msg) }
 
 type fmtArea struct{}
 
-var fmtKinds = []string{"new", "newf", "cause", "causef", "wrap", "wraptyped", "appendplain", "appendnil", "agg", "empty", "recover", "log"}
-var causeKinds = []string{"plain", "fwrap", "errs", "nil", "tnil", "fnil"}
+var fmtKinds = []string{"new", "newf", "cause", "causef", "wrap", "wraptyped", "appendplain", "appendnil", "agg", "empty", "recover", "log",
+	"newfargs", "deep", "causechain", "wrapas", "late", "isas", "recoverkinds", "logall", "logvalue", "filter", "clone"}
+var causeKinds = []string{"plain", "fwrap", "errs", "nil", "tnil", "fnil", "fwraperrs", "errorf", "join"}
+
+// sizes around the places where fixed buffers, growth policies and the number of digits of the count change
+var aggSizes = []int{2, 3, 4, 5, 9, 10, 11, 12, 16, 17, 32, 33, 64, 65, 99, 100, 128, 129, 256, 257, 1000}
+
+var oracleMsgs = append(append([]string{}, msgs...), "\xff\xfe not utf8", strings.Repeat("long ", 1000), "a\r\nb", "\x00nul")
 
 func (fmtArea) Gen(r *hx.Rng, n int, _ string, emit func(string)) {
 	// fixed preamble: errors built with a typed-nil cause (fix f303e30) are rendered with every verb
@@ -57,11 +63,12 @@ func (fmtArea) Gen(r *hx.Rng, n int, _ string, emit func(string)) {
 		if i >= 2*len(fmtKinds) {
 			k = hx.Pick(r, fmtKinds)
 		}
-		emit("chk " + k + " " + hx.Pick(r, causeKinds) + " " + hexMsg(r) + " " + hexMsg(r) + " " + strconv.Itoa(r.Range(2, 5)))
+		emit("chk " + k + " " + hx.Pick(r, causeKinds) + " " + hx.Hex([]byte(hx.Pick(r, oracleMsgs))) + " " +
+			hx.Hex([]byte(hx.Pick(r, oracleMsgs))) + " " + strconv.Itoa(hx.Pick(r, aggSizes)))
 	}
 }
 
-func mkCause(kind, msg string) error {
+func causeOf(kind, msg string) error {
 	switch kind {
 	case "plain":
 		return errors.New(msg)
@@ -69,6 +76,12 @@ func mkCause(kind, msg string) error {
 		return &fwrap{msg: msg, inner: errors.New("inner-" + msg)}
 	case "errs":
 		return makeInner(msg)
+	case "fwraperrs": // a foreign error that WRAPS a detailed error
+		return &fwrap{msg: "ctx " + msg, inner: makeInner(msg)}
+	case "errorf":
+		return fmt.Errorf("saving %q: %w", msg, makeInner(msg))
+	case "join":
+		return errors.Join(errors.New("j1 "+msg), makeInner(msg))
 	case "tnil":
 		return (*errs.Error)(nil)
 	case "fnil":
@@ -128,8 +141,14 @@ func checkRender(e *errs.Error, wantMsg, creator string, cause error, wrapped bo
 		if !strings.Contains("\n"+text, "\n    [main."+creator+"] ") {
 			return fmt.Sprintf("FAIL rendering does not name main.%s: %q", creator, text)
 		}
-		if !strings.Contains(text, "[main.(*fmtArea).Run] ") && !strings.Contains(text, "[main.fmtArea.Run] ") {
+		if len(lastFuncs) < 500 && !strings.Contains(text, "[main.(*fmtArea).Run] ") && !strings.Contains(text, "[main.fmtArea.Run] ") {
 			return fmt.Sprintf("FAIL rendering does not name the harness Run function: %q", text)
+		}
+	}
+	if len(lastFuncs) > 0 && lastFuncs[0] == "main."+creator {
+		// independent oracle for the whole trace: the functions recorded by runtime.Callers at the creation site
+		if fail := checkFuncs(v, pv, wantMsg, lastFuncs); fail != "" {
+			return fail
 		}
 	}
 	own := v
@@ -139,7 +158,7 @@ func checkRender(e *errs.Error, wantMsg, creator string, cause error, wrapped bo
 	if strings.Contains(own, "[runtime.") || strings.Contains(own, "toolbox/errs.") {
 		return fmt.Sprintf("FAIL %%v shows filtered frames: %q", own)
 	}
-	if !strings.Contains(pv, "[runtime.main] ") {
+	if len(lastFuncs) < 500 && !strings.Contains(pv, "[runtime.main] ") {
 		return fmt.Sprintf("FAIL %%+v lacks the runtime frames: %q", pv)
 	}
 	if cause != nil {
@@ -185,7 +204,7 @@ func checkRender(e *errs.Error, wantMsg, creator string, cause error, wrapped bo
 			}
 		}
 	} else {
-		if strings.Contains(v, "Caused by") || strings.Contains(pv, "Caused by") {
+		if strings.Contains(v[len(wantMsg):], "Caused by") || strings.Contains(pv[len(wantMsg):], "Caused by") {
 			return fmt.Sprintf("FAIL Caused by without a cause: %q", v)
 		}
 		if errors.Unwrap(e) != nil {
@@ -232,7 +251,7 @@ func (fmtArea) Run(line string) string {
 	kind, ckind := f[1], f[2]
 	msg, cmsg := string(hx.UnHex(f[3])), string(hx.UnHex(f[4]))
 	n := hx.Atoi(f[5])
-	cause := mkCause(ckind, cmsg)
+	cause := causeOf(ckind, cmsg)
 	fail := ""
 	switch kind {
 	case "new":
@@ -275,6 +294,20 @@ func (fmtArea) Run(line string) string {
 			if errs.Wrap(tn) != nil || errs.Wrap(fn) != nil || errs.WrapTyped(tn) != nil || errs.WrapTyped(fn) != nil {
 				fail = "FAIL Wrap/WrapTyped of a typed nil is not nil"
 			}
+		case "fwraperrs", "errorf", "join":
+			// the cause is not an *Error but wraps one: Wrap returns it as is, WrapTyped wraps it again
+			if kind == "wrap" {
+				if res != cause {
+					fail = "FAIL Wrap of an error that wraps an *Error does not return it unchanged"
+				}
+				break
+			}
+			e, ok := res.(*errs.Error)
+			if !ok || e == nil || e == error(cause) {
+				fail = "FAIL WrapTyped of a foreign error did not produce a new *Error"
+				break
+			}
+			fail = checkRender(e, cause.Error(), creator, cause, true)
 		case "errs":
 			if res != cause {
 				fail = "FAIL Wrap/WrapTyped of an *Error does not return it unchanged"
@@ -289,7 +322,7 @@ func (fmtArea) Run(line string) string {
 				fail = "FAIL Wrap/WrapTyped did not produce an *Error"
 				break
 			}
-			fail = checkRender(e, cmsg, creator, cause, true)
+			fail = checkRender(e, cause.Error(), creator, cause, true)
 			if fail == "" && (errs.Wrap(e) != error(e) || errs.WrapTyped(e) != e) {
 				fail = "FAIL wrapping twice is not idempotent"
 			}
@@ -308,7 +341,7 @@ func (fmtArea) Run(line string) string {
 			}
 			break
 		}
-		fail = checkRender(makeAppend(cause), cmsg, "makeAppend", cause, true)
+		fail = checkRender(makeAppend(cause), cause.Error(), "makeAppend", cause, true)
 	case "appendnil":
 		if isNilish(cause) {
 			cause = errors.New(cmsg)
@@ -317,7 +350,7 @@ func (fmtArea) Run(line string) string {
 			cause = errors.New(cmsg)
 		}
 		var tn *errs.Error
-		fail = checkRender(makeAppend(tn, nil, cause), cmsg, "makeAppend", cause, true)
+		fail = checkRender(makeAppend(tn, nil, cause), cause.Error(), "makeAppend", cause, true)
 	case "agg":
 		parts := make([]error, 0, n)
 		want := "Multiple (" + strconv.Itoa(n+1) + ") errors occurred:\n- " + msg
@@ -364,7 +397,7 @@ func (fmtArea) Run(line string) string {
 	case "recover":
 		if ckind == "tnil" || ckind == "fnil" {
 			// panic(typed nil error): Recovery hands it to NewWithCause, which drops it; the result must render
-			got := doRecover(mkCause(ckind, cmsg))
+			got := doRecover(causeOf(ckind, cmsg))
 			e, ok := got.(*errs.Error)
 			if !ok || e == nil {
 				fail = "FAIL Recovery did not hand an *Error to the handler"
@@ -434,7 +467,10 @@ func (fmtArea) Run(line string) string {
 			fail = "FAIL LogTo of a plain error"
 		}
 	default:
-		return "bad-op"
+		var handled bool
+		if fail, handled = runExtra(kind, ckind, msg, cmsg, n, cause); !handled {
+			return "bad-op"
+		}
 	}
 	if fail != "" {
 		return fail
